@@ -186,9 +186,20 @@ func (l *Ledger) Step() *BlockResult {
 	}
 	if b.SPR != nil && era.SPRVer > 0 {
 		usedTie := false
+		foreign := map[string]bool{}
 		g, err := gradeSPR(cfg, h, b.SPR, func(e factom.Entry) bool {
 			if len(e.ExtIDs) < 2 {
 				return false
+			}
+			if len(e.ExtIDs) >= 3 && len(e.ExtIDs[2]) >= 32 && len(e.ExtIDs[1]) == 32 {
+				rcd := append([]byte{0x01}, e.ExtIDs[2][:32]...)
+				h1 := sha256.Sum256(rcd)
+				signer := factom.FAAddress(sha256.Sum256(h1[:]))
+				var declared factom.FAAddress
+				copy(declared[:], e.ExtIDs[1])
+				if top[declared] && !top[signer] {
+					foreign[hex.EncodeToString(e.Hash[:])] = true
+				}
 			}
 			var id factom.FAAddress
 			if l.Opt.SPRBySigner {
@@ -215,6 +226,9 @@ func (l *Ledger) Step() *BlockResult {
 		if err == nil {
 			for _, w := range g.Winners() {
 				sprWin = append(sprWin, payoutRec{w.SPR.GetAddress(), w.Payout(), hex.EncodeToString(w.EntryHash)})
+				if foreign[hex.EncodeToString(w.EntryHash)] && h >= l.act("SprSig") {
+					res.ForeignSPRPaid = append(res.ForeignSPRPaid, hex.EncodeToString(w.EntryHash))
+				}
 			}
 			if ws := g.Winners(); len(ws) > 0 {
 				for _, a := range ws[0].SPR.GetOrderedAssetsUint() {
@@ -565,7 +579,7 @@ func (l *Ledger) applyBatch(res *BlockResult, h uint32, te *txEntry, rates, avgs
 				return -5
 			}
 			if _, ok := l.convert(h, p.Amt, rates[p.Asset], avgs[p.Asset], rates[p.Conv], avgs[p.Conv]); !ok {
-				return 0 // cannot be priced: dropped
+				return -6 // cannot be priced (overflow / no average): rejected
 			}
 		}
 	}
@@ -677,12 +691,8 @@ func (l *Ledger) executeHeld(res *BlockResult, h uint32, rates map[int]uint64) {
 			continue
 		}
 		code := l.applyBatch(res, h, te, rates, avgs)
-		if code == 0 {
-			f.Stuck = true
-		} else {
-			f.Status = code
-		}
-		if code >= 0 && h < l.act("V20") && h >= l.act("ConvLimit") && te.HasPegReq {
+		f.Status = code
+		if code > 0 && h < l.act("V20") && h >= l.act("ConvLimit") && te.HasPegReq {
 			for i, p := range te.Parts {
 				if p.Conv != PEG {
 					continue
